@@ -190,8 +190,13 @@ def loop_rules(ck, F, E):
                    "remove_loop_with_name no longer truncates the loop stack at the found index (%s): inner loops "
                    "are not forgotten and abandoned loops accumulate" % (single or "no truncation found"), rl.span)
         # the index flowing into the truncation is the found index (search compares symbols)
-        eqs = [c for c in rl.calls() if c.callee.endswith("::eq") or c.callee.endswith("::ne")]
-        ok = any("symbol" in show(rl.expr(a)) for c in eqs for a in c.args)
+        # (the comparison may sit in the loop body or in the closure handed to position / rposition / find)
+        from lib import expr_has_field
+        ok = False
+        for bd in [rl] + [F.bodies[p] for p in sorted(F.bodies) if p.startswith(rl.path + "::{closure")]:
+            for c in bd.calls():
+                if (c.callee.endswith("::eq") or c.callee.endswith("::ne")) and any(expr_has_field(bd.expr(a), "symbol") for a in c.args):
+                    ok = True
         ck.require(ok, "C16:LOOP:search-by-symbol", "loop forgetting", "search compares LoopInfo.symbol with the name",
                    "remove_loop_with_name no longer searches by symbol", rl.span)
 
